@@ -528,11 +528,16 @@ def grid_dtype(layout):
     return {"int64": np.int64, "f32": np.float32}.get(layout, np.float64)
 
 
-def make_flowdir(layout, int32=False):
+def make_flowdir(layout, int32=False, nodata_cells=False):
     from hydrodiy.gis.grid import Grid
     dt = np.int32 if int32 else grid_dtype(layout)
     g = Grid("fd", 6, 6, dtype=dt, nodata=-1, cellsize=0.5, xllcorner=10., yllcorner=-3.)
     g.data[...] = np.array(FLOWDIR)
+    if nodata_cells:
+        # cells holding the grid's (non-zero) no-data marker, as a real flow direction raster has outside the basin
+        g.data[0, 0] = -1
+        g.data[5, 5] = -1
+        g.data[4, 0] = -1
     return g
 
 
@@ -912,6 +917,24 @@ def build_catalogue():
         lambda a: gridmod.delineate_river(a["flowdir"], 1, nval=50), layouts=["c64"])
     add("grid.accumulate", lambda n, s, lay: {"flowdir": Fixed(make_flowdir(lay))},
         lambda a: gridmod.accumulate(a["flowdir"], nprint=10), layouts=GRID_LAYOUTS)
+    add("grid.accumulate[flowdir with no-data cells]", lambda n, s, lay: {"flowdir": Fixed(make_flowdir(lay, nodata_cells=True))},
+        lambda a: gridmod.accumulate(a["flowdir"], nprint=10), layouts=GRID_LAYOUTS)
+    add("grid.slope[flowdir with no-data cells]", lambda n, s, lay: {"flowdir": Fixed(make_flowdir("int64", nodata_cells=True)),
+                                                                    "altitude": Fixed(make_valgrid(lay, s))},
+        lambda a: gridmod.slope(a["flowdir"], a["altitude"], nprint=10), layouts=GRID_LAYOUTS)
+    add("grid.delineate_river[flowdir with no-data cells]", lambda n, s, lay: {"flowdir": Fixed(make_flowdir(lay, nodata_cells=True))},
+        lambda a: gridmod.delineate_river(a["flowdir"], 2, nval=50), layouts=GRID_LAYOUTS)
+
+    def catch_nd(a):
+        from hydrodiy.gis.grid import Catchment
+        ca = Catchment("ca", a["flowdir"])
+        ca.delineate_area(27, nval=200)
+        ca.delineate_boundary()
+        ca.compute_flowpathlengths()
+        return (ca.idxcells_area.copy(), ca.idxcells_boundary.copy(), ca.flowpathlengths.values.copy())
+
+    add("grid.Catchment[flowdir with no-data cells]", lambda n, s, lay: {"flowdir": Fixed(make_flowdir(lay, nodata_cells=True))},
+        catch_nd, layouts=GRID_LAYOUTS)
     add("grid.accumulate[to_accumulate]", lambda n, s, lay: {"flowdir": Fixed(make_flowdir("int64")),
                                                               "to_accumulate": Fixed(make_valgrid(lay, s))},
         lambda a: gridmod.accumulate(a["flowdir"], a["to_accumulate"], nprint=10), layouts=GRID_LAYOUTS)
@@ -1653,12 +1676,25 @@ def cases_of(site, tier, seed):
             yield {"site": site.name, "layout": "c64", "n": n, "seed": seed, "nan": True, "history": 3}
 
 
+TRANSFORM_CLASSES = ["Logit", "Log", "BoxCox2", "BoxCox1lam", "BoxCox1nu", "BoxCox2sym", "YeoJohnson", "Reciprocal", "Sinh",
+                     "LogSinh", "Manly"]
+
+
 def units(tier, seed):
     return [{"site": s.name, "tier": tier, "seed": seed} for s in all_sites(tier)] + \
-           [{"site": PAIR_SITE % g, "pairs": g, "tier": tier, "seed": seed} for g in PAIR_GROUPS]
+           [{"site": PAIR_SITE % g, "pairs": g, "tier": tier, "seed": seed} for g in PAIR_GROUPS] + \
+           [{"site": "transform.%s[params_sample then use]" % c, "thistory": c, "tier": tier, "seed": seed} for c in TRANSFORM_CLASSES]
 
 
 def run_unit(unit, ctx):
+    if unit.get("thistory"):
+        # a transform object on which params_sample was called, one value then changed by name, then used: it must
+        # answer like a fresh object at the same configuration (machinery shared with C01 / C02)
+        from checks import _transforms as H
+        from hydrodiy.stat import transform as T
+        ctx.case(False, n=0, sample={"site": unit["site"], "history": "transform"})
+        H.run_history(ctx, T, unit["thistory"], unit["tier"], unit["seed"], ["forward", "backward", "jacobian"], f1s=["params_sample"])
+        return
     if unit.get("pairs"):
         ctx.case(False, n=0, sample={"site": unit["site"], "group": unit["pairs"], "history": "pair"})
         run_pairs(ctx, unit["pairs"], unit["tier"], unit["seed"])
@@ -1675,5 +1711,9 @@ def run_unit(unit, ctx):
 def replay(case):
     from mc.explore import Result
     ctx = Result()
+    if isinstance(case.get("history"), dict):
+        from checks import _transforms as H
+        from hydrodiy.stat import transform as T
+        return H.replay_history(T, case)
     run_case(ctx, None if case.get("history") == "pair" else find_site(case["site"]), case)
     return [v for lst in ctx.violations.values() for v in lst]
